@@ -304,8 +304,9 @@ class Dimension:
 
         self = super().__new__(cls)
         self._initialized = False
-        cls._known[key] = self
-        return self
+        # setdefault is a single step: when two threads race to create the same key,
+        # both get the object that was stored first
+        return cls._known.setdefault(key, self)
 
     def __init__(
         self,
@@ -651,8 +652,9 @@ class Prefix:
 
         self = super().__new__(cls)
         self._initialized = False
-        cls._known[key] = self
-        return self
+        # setdefault is a single step: when two threads race to create the same key,
+        # both get the object that was stored first
+        return cls._known.setdefault(key, self)
 
     def __init__(
         self,
@@ -927,8 +929,9 @@ class Unit:
         self._initialized = False
         if not factors:
             key = cls._build_key(prefix, {self: 1})
-        cls._known[key] = self
-        return self
+        # setdefault is a single step: when two threads race to create the same key,
+        # both get the object that was stored first
+        return cls._known.setdefault(key, self)
 
     def __init__(
         self,
